@@ -235,9 +235,9 @@ fn truncated_logs() -> Vec<Case> {
 
 pub fn run(ctx: &Ctx, rep: &mut Report) {
     engine::enumerate(ctx, rep, "log-truncated-at-every-byte", truncated_logs().into_iter(), check_case);
-    let cases = ctx.share(ctx.tier.pick(30_000, 1_500_000));
+    let cases = ctx.share(ctx.tier.pick(120_000, 1_500_000));
     engine::drive(ctx, rep, "random", case_strategy(), cases, check_case);
-    let cases = ctx.share(ctx.tier.pick(4_000, 200_000));
+    let cases = ctx.share(ctx.tier.pick(12_000, 200_000));
     engine::drive(ctx, rep, "long-streams", long_case_strategy(), cases, check_case);
 }
 
